@@ -93,7 +93,7 @@ Definition update_high_qc (st : pm_state) (q : qc_in) : pm_state * result bool :
       else (mkSt (st_view st) (q_hash q) (q_label q) (st_htc st) (st_cview st), Ok true)
   end.
 
-(* func (s *ViewStates) UpdateHighTC (exported; no caller in the tree) *)
+(* func (s *ViewStates) UpdateHighTC (called by advanceView with the sync info's verified TC) *)
 Definition update_high_tc (st : pm_state) (v : view) : pm_state :=
   if st_htc st <? v then mkSt (st_view st) (st_hq_hash st) (st_hq_view st) v (st_cview st) else st.
 
@@ -105,7 +105,10 @@ Inductive event : Type :=
 Definition advance_view (r : trule) (st : pm_state) (si : sync_info) : pm_state * list event :=
   match verify_sync_info r si with
   | Ok (oq, v, tmo) =>
-      let st1 := match oq with Some q => fst (update_high_qc st q) | None => st end in
+      let st0 := match oq with Some q => fst (update_high_qc st q) | None => st end in
+      (* remember the highest verified TC (VerifySyncInfo has verified it), also when the sync info is
+         too old to advance the view *)
+      let st1 := match si_tc si with Some t => update_high_tc st0 (t_view t) | None => st0 end in
       if v <? st_view st1 then (st1, [])
       else
         let nv := st_view st1 + 1 in                       (* NextView *)
@@ -140,7 +143,7 @@ Definition commit (st : pm_state) (chain : list view) : pm_state * list event :=
 Inductive action : Type :=
 | AAdvance (si : sync_info)        (* one call of advanceView *)
 | AHighQC (q : qc_in)              (* a direct call of ViewStates.UpdateHighQC *)
-| AHighTC (v : view)               (* a direct call of ViewStates.UpdateHighTC *)
+| AHighTC (v : view)               (* a direct call of ViewStates.UpdateHighTC (outside advanceView) *)
 | ACommit (chain : list view).     (* CommitRule returned a block with this ancestor chain *)
 
 Definition step (r : trule) (st : pm_state) (a : action) : pm_state * list event :=
